@@ -21,6 +21,13 @@ structure AuthRequestData where
   MaxAge : Option Nat := none
   IDTokenHint : String := ""
   RequestParam : String := ""
+  -- further fields a request object may override (read by `CopyRequestObjectToAuthRequest` only)
+  Display : String := ""
+  UILocales : List String := []
+  LoginHint : String := ""
+  ACRValues : List String := []
+  CodeChallenge : String := ""
+  CodeChallengeMethod : String := ""
   deriving DecidableEq, Repr, Inhabited
 
 /-- a stored authorization request (`op.AuthRequest`).  `GetID` returns the stored object itself: an id
@@ -88,6 +95,8 @@ structure OidcError where
   SessionState : String := ""
   deriving DecidableEq, Repr, Inhabited
 def OidcError.IsRedirectDisabled (e : OidcError) : Bool := e.redirectDisabled
+/-- `e.ErrorType`: the OAuth error code of the constructor (REGENERATED table) -/
+def OidcError.ErrorType (e : OidcError) : String := ((Gen.oidcErrorCodes.find? (·.1 == e.name)).map (·.2)).getD "server_error"
 /-- an `*oidc.Error` used as `error` -/
 instance : Coe OidcError String := ⟨fun e => e.name⟩
 
@@ -122,11 +131,31 @@ structure Encoder where
   encodeFails : Bool := false
   formPostFails : Bool := false
   deriving DecidableEq, Repr, Inhabited
+/-- `encoder.Encode(response, values)` of `AuthResponseFormPost` -/
+def Encoder.Encode (e : Encoder) (p : RespParams) : Go.R RespParams := if e.formPostFails then .error "encode" else .ok p
+
+/-- the data handed to the form_post template -/
+structure AzFormParams where
+  RedirectURI : String
+  Params : RespParams
+  deriving DecidableEq, Repr, Inhabited
+/-- the rendered form_post page: an HTML document that auto-submits a form to `action` -/
+structure AzFormPage where
+  action : String
+  deriving DecidableEq, Repr, Inhabited
+/-- `formPostTmpl.Execute` (html/template): an ORACLE - which `action` attribute the rendered page carries for the given
+    `RedirectURI` is up to html/template's contextual URL filter (F-C03d: it is NOT always the redirect URI) -/
+structure AzFormTemplate where
+  Execute : AzFormParams → Go.R AzFormPage := fun p => .ok ⟨p.RedirectURI⟩
 
 structure AzStorage where
   GetClientByClientID : String → Go.R OPClient
   CreateAuthRequest : AuthRequestData → String → Go.R AzStored
   AuthRequestByID : String → Go.R AzStored
+
+/-- `httphelper.Decoder` (gorilla/schema) on the form of an authorization request: an ORACLE -/
+structure AzDecoder where
+  Decode : FormVals → Go.R AuthRequestData := fun _ => .error "no decoder"
 
 /-- the provider as the authorization handlers see it (`op.Authorizer` / `OpenIDProvider`) -/
 structure AzProvider where
@@ -136,16 +165,56 @@ structure AzProvider where
   Logger : Unit := ()
   RequestObjectSupported : Bool := false
   IDTokenHintVerifier : Unit := ()
+  Decoder : AzDecoder := {}
+  -- an `op.AuthorizeValidator` (a provider that brings its own `ValidateAuthRequest`): not the library's Provider
+  is_AuthorizeValidator : Bool := false
+  ValidateAuthRequest : AuthRequestData → AzStorage → Unit → Go.R String := fun _ _ _ => .error "no custom validator"
 
 structure AzLegacyServer where
   provider : AzProvider
 structure AzWebServer where
   server : AzLegacyServer
+  decoder : AzDecoder := {}
+  logger : Unit := ()
 
-/-- the incoming `*http.Request` of the callback endpoint -/
+/-- the incoming `*http.Request` of the authorization and the callback endpoint -/
 structure AzHttpReq where
   ParseForm : Go.R Unit := .ok ()
   Form : FormVals := {}
+  PostForm : FormVals := {}
+
+/-- `oidc.RequestObject`: the claims of a `request` parameter -/
+structure AzRequestObject where
+  Issuer : String := ""
+  Audience : List String := []
+  ClientID : String := ""
+  ResponseType : String := ""
+  Scopes : List String := []
+  RedirectURI : String := ""
+  State : String := ""
+  ResponseMode : String := ""
+  Nonce : String := ""
+  Display : String := ""
+  Prompt : List String := []
+  MaxAge : Option Nat := none
+  UILocales : List String := []
+  IDTokenHint : String := ""
+  LoginHint : String := ""
+  ACRValues : List String := []
+  CodeChallenge : String := ""
+  CodeChallengeMethod : String := ""
+  deriving DecidableEq, Repr, Inhabited
+
+/-- `oidc.ParseToken` and `oidc.CheckSignature` (against the keys the storage holds for the named client): ORACLES -/
+structure AzRoOracle where
+  ParseToken : String → Go.R (String × AzRequestObject)
+  CheckSignature : String → String → AzRequestObject → List String → (AzStorage × String) → Go.R AzRequestObject
+
+/-- `op.StatusError` -/
+structure AzStatusError where
+  parent : String := ""
+  statusCode : Int := 0
+  deriving DecidableEq, Repr, Inhabited
 
 /-- everything the handlers call that does not decide about the redirect URI: arbitrary functions -/
 structure AuthDeps where
@@ -155,6 +224,7 @@ structure AuthDeps where
   ParseRequestObject : AuthRequestData → AzStorage → String → Go.R AuthRequestData
   CreateTokenResponse : AzStored → OPClient → AzProvider → Bool → String → String → Go.R RespParams
   CreateAuthRequestCode : AzStored → AzStorage → Unit → Go.R String
+  FormTemplate : AzFormTemplate := {}
 
 class HasErrName (α : Type) where
   errName : α → String
@@ -168,11 +238,27 @@ def DefaultToServerError (_now : Int) (err : String) (_description : String) : O
   if Go.hasPrefix err "Err" && Gen.oidcErrorCtors.contains err then
     { name := err, redirectDisabled := Gen.redirectDisabledErrors.contains err }
   else { name := "ErrServerError", redirectDisabled := false }
-/-- `AsStatusError(err, code)`: the status code is not modelled -/
-def AsStatusError {α : Type} [HasErrName α] (_now : Int) (e : α) (_code : Int) : String := HasErrName.errName e
+/-- `AsStatusError(err, code)`: a `StatusError` wrapping `err`; as a string it carries a marker prefix (15 characters) that
+    `azErrorsAs` (= `errors.As(err, &statusError)`) recognises -/
+def AsStatusError {α : Type} [HasErrName α] (_now : Int) (e : α) (code : Int) : String :=
+  (if code == 400 then "StatusError400:" else "StatusError500:") ++ HasErrName.errName e
 def NewRedirect (_now : Int) (u : OutURL) : Redirect := ⟨u⟩
 def mkClientRequest {α : Type} (r : Request α) (c : OPClient) : ClientRequest α := { Data := r.Data, Client := c }
 def httpError (_msg : String) (status : Int) : List Write := [.page status]
+/-- `httphelper.MarshalJSONWithStatus(w, err, status)`: a JSON document, no Location -/
+def marshalJSONWithStatus (_e : OidcError) (status : Int) : List Write := [.page status]
+/-- `errors.As(err, &statusError)`: errors built by `AsStatusError` carry the marker prefix -/
+def azErrorsAs (err : String) (v : AzStatusError) : Bool × AzStatusError :=
+  if Go.hasPrefix err "StatusError400:" then (true, { parent := String.ofList (err.toList.drop 15), statusCode := 400 })
+  else if Go.hasPrefix err "StatusError500:" then (true, { parent := String.ofList (err.toList.drop 15), statusCode := 500 })
+  else (false, v)
+/-- `validator.ValidateAuthRequest` of a custom `AuthorizeValidator`, as a validation closure: it does not hand a client back -/
+def azCustomValidation (v : AzProvider) (client : OPClient) : AuthRequestData → AzStorage → Unit → (Go.R String × OPClient) :=
+  fun a s ver => (v.ValidateAuthRequest a s ver, client)
+/-- `newRequest(r, data)` -/
+def azNewRequest (r : AzHttpReq) (data : AuthRequestData) : Request AuthRequestData := { Form := r.Form, Data := data }
+/-- `&jwtProfileKeySet{storage, clientID}` -/
+def azKeySet (storage : AzStorage) (clientID : String) : AzStorage × String := (storage, clientID)
 def httpRedirect (u : OutURL) (_status : Int) : List Write := [.redirect u]
 /-- `httphelper.URLEncodeParams` -/
 def URLEncodeParams (_now : Int) (p : RespParams) (e : Encoder) : Go.R RespParams :=
@@ -180,9 +266,19 @@ def URLEncodeParams (_now : Int) (p : RespParams) (e : Encoder) : Go.R RespParam
 /-- `mergeQueryParams(uri, params)` / `setFragment(uri, params)`: the response URL is built on `uri` -/
 def mergeQueryParams (_now : Int) (uri : URL) (p : RespParams) : OutURL := .response uri.raw false p
 def setFragment (_now : Int) (uri : URL) (p : RespParams) : OutURL := .response uri.raw true p
-/-- `AuthResponseFormPost`: nothing is written when the template fails -/
-def AuthResponseFormPost (_now : Int) (redirectURI : String) (_p : RespParams) (e : Encoder) : Go.R (List Write) :=
-  if e.formPostFails then .error "ErrServerError" else .ok [.formPost redirectURI]
+/-- the anonymous parameter struct of `AuthResponseFormPost` -/
+def formPostParams (redirectURI : String) (values : RespParams) : AzFormParams := ⟨redirectURI, values⟩
+/-- `res.WriteHeader(200)`: the status line; the page itself is written by `buf.WriteTo(res)` -/
+def resWriteHeader (res : List Write) (_status : Int) : List Write := res
+/-- `buf.WriteTo(res)`: the rendered page goes out (a write to an `http.ResponseWriter` whose failure is not modelled) -/
+def bufWriteTo (buf : AzFormPage) (res : List Write) : List Write × Go.R Unit := (res ++ [.formPost buf.action], .ok ())
+/-- a handler calling `err := AuthResponseFormPost(w, ..)`: what was written, or the error (nothing is written before a failure:
+    encoding and template execution happen into a buffer) -/
+def runFormPost (f : List Write → String → RespParams → Encoder → (List Write × Go.R Unit)) (redirectURI : String) (p : RespParams)
+    (e : Encoder) : Go.R (List Write) :=
+  match f [] redirectURI p e with
+  | (ws, .ok _) => .ok ws
+  | (_, .error err) => .error err
 /-- the anonymous `codeResponse` struct of `AuthResponseCode` -/
 def codeResponse (_code _state _sessionState : String) : RespParams := { kind := "code" }
 /-- the anonymous struct of `AuthResponseToken`: the token response with the session state next to it -/
